@@ -375,7 +375,76 @@ pub fn worker(ctx: &Ctx, res: &mut ShardResult) {
     sched::remove_hook();
 }
 
+fn parse_usize_list(s: &str) -> Vec<usize> { s.split(|c: char| !c.is_ascii_digit()).filter(|t| !t.is_empty()).filter_map(|t| t.parse().ok()).collect() }
+
+/// "[Copy(0), Edit(1, 2), Reparse(0)]" -> operations
+fn parse_hops(s: &str) -> Vec<HOp> {
+    let mut out = vec![];
+    for part in s.trim_matches(|c| c == '[' || c == ']').split("),") {
+        let p = part.trim();
+        let args = parse_usize_list(p.split('(').nth(1).unwrap_or(""));
+        let a = |k: usize| args.get(k).copied().unwrap_or(0);
+        if p.starts_with("Copy") { out.push(HOp::Copy(a(0))); } else if p.starts_with("Edit") { out.push(HOp::Edit(a(0), a(1))); } else if p.starts_with("Reparse") { out.push(HOp::Reparse(a(0))); }
+        else if p.starts_with("Walk") { out.push(HOp::Walk(a(0))); } else if p.starts_with("Delete") { out.push(HOp::Delete(a(0))); }
+    }
+    out
+}
+
+/// "[EditReparse(0), CopyDrop]" -> thread program
+fn parse_tops(s: &str) -> Vec<TOp> {
+    let mut out = vec![];
+    for part in s.trim_matches(|c| c == '[' || c == ']').split(',') {
+        let p = part.trim();
+        let arg = parse_usize_list(p.split('(').nth(1).unwrap_or("")).first().copied().unwrap_or(0);
+        if p.starts_with("EditReparse") { out.push(TOp::EditReparse(arg)); } else if p.starts_with("CopyDrop") { out.push(TOp::CopyDrop); } else if p.starts_with("EditOnly") { out.push(TOp::EditOnly(arg)); }
+        else if p.starts_with("Walk") { out.push(TOp::Walk); } else if p.starts_with("Drop") { out.push(TOp::Drop); }
+    }
+    out
+}
+
+/// Re-execute one recorded handle history (part a) or one recorded schedule of a thread harness (part b).
 pub fn replay(case: &Value) -> Vec<String> {
     let case = if case.get("kind").and_then(|k| k.as_str()) == Some("crash") { &case["case"] } else { case };
-    vec![format!("C08 replays re-run the recorded history/schedule inside the check; rerun `./vf check C08 quick` (case: {})", case)]
+    let Some(z) = crate::zoo::by_name(case["lang"].as_str().unwrap_or("")) else { return vec![format!("unknown language in case {}", case)] };
+    let info = build_info(&z);
+    let doc = crate::util::bytes_from_json(&case["doc"]);
+    alloc::install();
+    let mut msgs = vec![];
+    match case["part"].as_str() {
+        Some("a") => {
+            let ops = parse_hops(case["history"].as_str().unwrap_or(""));
+            let mut parser = Parser::new();
+            parser.set_language(&info.language).unwrap();
+            let mut hs = rebuild(&info, &mut parser, &doc, &[]);
+            for (k, op) in ops.iter().enumerate() {
+                let valid = match *op { HOp::Copy(i) | HOp::Edit(i, _) | HOp::Reparse(i) | HOp::Walk(i) | HOp::Delete(i) => i < hs.len() };
+                if !valid { msgs.push(format!("ENGINE replay diverged: operation #{} {:?} names a handle that does not exist", k, op)); break; }
+                let before: Vec<(u64, u64)> = hs.iter().map(snapshot).collect();
+                apply_hop(&mut parser, &mut hs, op);
+                let (target, mutates, removed) = match *op { HOp::Copy(i) => (i, false, false), HOp::Edit(i, _) => (i, true, false), HOp::Reparse(i) => (i, false, false), HOp::Walk(i) => (i, false, false), HOp::Delete(i) => (i, false, true) };
+                let mut j_after = 0usize;
+                for (j, b) in before.iter().enumerate() {
+                    if removed && j == target { continue; }
+                    let a = snapshot(&hs[j_after]);
+                    j_after += 1;
+                    if j == target && mutates { continue; }
+                    if a.0 != b.0 { msgs.push(format!("other-handle-changed-internally: after {:?} handle {} changed its internal dump", op, j)); }
+                    if a.1 != b.1 { msgs.push(format!("other-handle-changed-visibly: after {:?} handle {} changed what it shows", op, j)); }
+                }
+                println!("{:?} -> {} handles: {}", op, hs.len(), hs.iter().map(|h| h.tree.root_node().to_sexp()).collect::<Vec<_>>().join(" | "));
+            }
+        }
+        Some("b") => {
+            sched::install_hook();
+            let progs: Vec<Vec<TOp>> = case["programs"].as_array().map(|a| a.iter().map(|p| parse_tops(p.as_str().unwrap_or(""))).collect()).unwrap_or_default();
+            let h = Harness { doc, progs, keep_base: case["keep_base"].as_bool().unwrap_or(true) };
+            let schedule: Vec<usize> = case["schedule"].as_array().map(|a| a.iter().filter_map(|x| x.as_u64()).map(|x| x as usize).collect()).unwrap_or_default();
+            let expected: Vec<Vec<u64>> = h.progs.iter().map(|p| { let mut parser = Parser::new(); parser.set_language(&info.language).unwrap(); let t = parser.parse(&h.doc, None).unwrap(); run_program(&info.language, h.doc.clone(), t, p) }).collect();
+            let (rr, errs) = exec_harness(&info, &h, &schedule, &expected);
+            println!("programs {:?}, keep_base {}, {} scheduling points, choices {:?}", h.progs, h.keep_base, rr.trace.len(), rr.trace.iter().map(|p| p.chosen).collect::<Vec<_>>());
+            for (fp, m) in errs { msgs.push(format!("{}: {}", fp, m)); }
+        }
+        _ => msgs.push(format!("not a C08 history or schedule case (ThreadSanitizer reports carry the report itself): {}", case.to_string().chars().take(300).collect::<String>())),
+    }
+    msgs
 }
